@@ -812,6 +812,18 @@ func replayBehaviour(in *vio.Input, bi int, b vio.Behaviour, res *vio.Result) (t
 				want = "parked in " + modelParked(pc)
 			}
 			res.Seen(o.op + "/" + want)
+			if got != want && strings.HasPrefix(got, "parked in select") && strings.HasPrefix(want, "returned") {
+				// Every schedule of the model returns this call here (a fired deadline / a closed done channel
+				// enables each call parked on it, whatever else happens); the real call is still parked.
+				switch {
+				case strings.HasSuffix(want, ",timeout)"):
+					res.Violation(vio.Finding{Key: "pipe.deadline/parked-call-not-unblocked", Behaviour: bi, Step: si, Expected: want, Observed: got,
+						Text: fmt.Sprintf("%s(%s) stays parked although its deadline has expired (model: %s)", o.op, t, want), Replay: hist})
+				case strings.HasSuffix(want, ",closed)") || strings.HasSuffix(want, ",eof)") || strings.HasSuffix(want, ",custom)"):
+					res.Violation(vio.Finding{Key: "pipe.halfclose/parked-call-not-unblocked", Behaviour: bi, Step: si, Expected: want, Observed: got,
+						Text: fmt.Sprintf("%s(%s) stays parked although its direction was shut down (model: %s)", o.op, t, want), Replay: hist})
+				}
+			}
 			if got != want {
 				res.DriftNote(vio.Finding{Key: "pipe.replay/model-drift", Behaviour: bi, Step: si, Expected: want, Observed: got,
 					Text: fmt.Sprintf("%s(%s): model expects %q, pipe did %q", o.op, t, want, got), Replay: hist})
